@@ -99,10 +99,12 @@ func genInternalQueries(repo string) (string, error) {
 		return "", fmt.Errorf("stream: the inCh arm is not `if q, ok := e.(*Query); …`")
 	}
 	init := exprString(ifs.Init)
-	initParts := strings.SplitN(init, ",", 2)
-	qv := strings.TrimSpace(initParts[0])
-	guard := init == qv+", ok := "+ev+".(*Query)" &&
-		exprString(ifs.Cond) == "ok && strings.HasPrefix("+qv+".Name, InternalQueryPrefix)"
+	qv, okv := "", ""
+	if ia, isAssign := ifs.Init.(*ast.AssignStmt); isAssign && len(ia.Lhs) == 2 && len(ia.Rhs) == 1 {
+		qv, okv = exprString(ia.Lhs[0]), exprString(ia.Lhs[1]) // any names
+	}
+	guard := qv != "" && init == qv+", "+okv+" := "+ev+".(*Query)" &&
+		exprString(ifs.Cond) == okv+" && strings.HasPrefix("+qv+".Name, InternalQueryPrefix)"
 	if !guard {
 		return "", fmt.Errorf("stream: unsupported internal-query test %q; %q", init, exprString(ifs.Cond))
 	}
